@@ -168,7 +168,7 @@ func TestC05RoutingAndDrains(t *testing.T) {
 		"advance", "advance", "advanceSmall", "tick",
 	}
 	p := &profile{
-		name: "C05", ops: ops, minSteps: 5, maxSteps: 60, instances: instanceNames,
+		name: "C05", ops: ops, minSteps: 5, maxSteps: 60, instances: instanceNames, oddClasses: true,
 		queues: nestedQueues, routers: drawRouters, workers: [2]int{2, 6}, actions: [2]int{2, 6}, invDepth: [2]int{0, 1},
 		syncKinds: allSyncKinds, finalDrain: true,
 		nontrivial: func(l labels) bool {
@@ -190,7 +190,7 @@ func TestC06TimeoutsWakeupsNoLeaks(t *testing.T) {
 		"raceTimer", "raceTimer", "raceTimer", "raceCancel",
 	}
 	p := &profile{
-		name: "C06", ops: ops, minSteps: 5, maxSteps: 70, instances: []string{"", "a"},
+		name: "C06", ops: ops, minSteps: 5, maxSteps: 70, instances: []string{"", "a"}, oddClasses: true,
 		queues: defaultQueues, workers: [2]int{1, 4}, actions: [2]int{1, 4}, invDepth: [2]int{0, 3},
 		syncKinds: allSyncKinds, finalDrain: true,
 		nontrivial: func(l labels) bool {
@@ -209,7 +209,7 @@ func TestC07LearnerProtocolLinear(t *testing.T) {
 		"advance", "advanceSmall", "tick",
 	}
 	p := &profile{
-		name: "C07", ops: ops, minSteps: 5, maxSteps: 60, instances: []string{""},
+		name: "C07", ops: ops, minSteps: 5, maxSteps: 60, instances: []string{""}, oddClasses: true,
 		queues: func(rt *rapid.T) []queueSpec {
 			return []queueSpec{{Prefix: "", Platform: 0, Predeclared: true, SizeClasses: rapid.SampledFrom([][]uint32{{1, 4}, {1, 2, 8}, {2}}).Draw(rt, "sizeClasses"), MaxBG: rapid.IntRange(0, 2).Draw(rt, "maxBG"), BGPriority: 50}}
 		},
